@@ -3,6 +3,7 @@
 //! and an AST interpreter as reference.
 
 use crate::probe::{Counters, Probe};
+use common::refmodel::{sample_add, sample_mul, Fmt};
 use dasp_frame::Frame;
 use dasp_sample::{FromSample, Sample};
 use dasp_signal::{self as signal, Signal};
@@ -40,6 +41,7 @@ pub enum Un {
     ScaleNeg,
     ScaleZero,
     ScaleOne,
+    ScaleBig, // gain 4: float frames leave [-1, 1] (scale probes only, not in UNARY)
     Offset,
     ScalePC,
     OffsetPC,
@@ -80,6 +82,7 @@ impl Node {
                     Un::ScaleNeg => "scale_neg".into(),
                     Un::ScaleZero => "scale_zero".into(),
                     Un::ScaleOne => "scale_one".into(),
+                    Un::ScaleBig => "scale_big".into(),
                     Un::Offset => "offset".into(),
                     Un::ScalePC => "scale_pc".into(),
                     Un::OffsetPC => "offset_pc".into(),
@@ -187,6 +190,7 @@ fn parse_node(s: &str) -> Option<(Node, &str)> {
         "scale_neg" => Un::ScaleNeg,
         "scale_zero" => Un::ScaleZero,
         "scale_one" => Un::ScaleOne,
+        "scale_big" => Un::ScaleBig,
         "offset" => Un::Offset,
         "scale_pc" => Un::ScalePC,
         "offset_pc" => Un::OffsetPC,
@@ -215,6 +219,23 @@ pub trait Fr: Frame + Debug + PartialEq + 'static {
     fn scale_pc() -> Self::Float;
     fn map_fn(f: Self) -> Self;
     fn zip_fn(a: Self, b: Self) -> Self;
+    /// The amplitude operations as the reference interpreter applies them. Integer families
+    /// override these with independent integer / float arithmetic (common::refmodel), so that the
+    /// interpreter does not inherit a defect of the Frame / Sample operation itself; float families
+    /// keep the native operation. Outside the law's domain (result out of range) the real operation
+    /// is used.
+    fn abs_scale(self, g: FlS<Self>) -> Self {
+        self.scale_amp(g)
+    }
+    fn abs_offset(self, k: SgS<Self>) -> Self {
+        self.offset_amp(k)
+    }
+    fn abs_add(self, o: Self::Signed) -> Self {
+        self.add_amp(o)
+    }
+    fn abs_mul(self, o: Self::Float) -> Self {
+        self.mul_amp(o)
+    }
 }
 
 fn gain<F: Frame>(g: f64) -> FlS<F> {
@@ -222,7 +243,7 @@ fn gain<F: Frame>(g: f64) -> FlS<F> {
 }
 
 macro_rules! fr_int {
-    ($T:ty, $N:expr, $name:expr, $S:ty, $eq:expr) => {
+    ($T:ty, $N:expr, $name:expr, $S:ty, $eq:expr, $FMT:expr) => {
         impl Fr for [$T; $N] {
             const NAME: &'static str = $name;
             fn coded(id: usize, n: usize) -> Self {
@@ -246,12 +267,28 @@ macro_rules! fr_int {
             fn zip_fn(a: Self, b: Self) -> Self {
                 core::array::from_fn(|c| if c % 2 == 0 { a[c] } else { b[c] })
             }
+            fn abs_scale(self, g: f32) -> Self {
+                let real = self.scale_amp(g);
+                core::array::from_fn(|c| sample_mul($FMT, self[c] as i128, g as f64).map(|x| x as $T).unwrap_or(real[c]))
+            }
+            fn abs_offset(self, k: $S) -> Self {
+                let real = self.offset_amp(k);
+                core::array::from_fn(|c| sample_add($FMT, self[c] as i128, k as i128).map(|x| x as $T).unwrap_or(real[c]))
+            }
+            fn abs_add(self, o: [$S; $N]) -> Self {
+                let real = self.add_amp(o);
+                core::array::from_fn(|c| sample_add($FMT, self[c] as i128, o[c] as i128).map(|x| x as $T).unwrap_or(real[c]))
+            }
+            fn abs_mul(self, o: [f32; $N]) -> Self {
+                let real = self.mul_amp(o);
+                core::array::from_fn(|c| sample_mul($FMT, self[c] as i128, o[c] as f64).map(|x| x as $T).unwrap_or(real[c]))
+            }
         }
     };
 }
-fr_int!(i16, 2, "[i16;2]", i16, 0);
-fr_int!(u8, 3, "[u8;3]", i8, 128);
-fr_int!(i8, 3, "[i8;3]", i8, 0);
+fr_int!(i16, 2, "[i16;2]", i16, 0, Fmt::I16);
+fr_int!(u8, 3, "[u8;3]", i8, 128, Fmt::U8);
+fr_int!(i8, 3, "[i8;3]", i8, 0, Fmt::I8);
 
 macro_rules! fr_float {
     ($T:ty, $N:expr, $name:expr) => {
@@ -278,13 +315,26 @@ macro_rules! fr_float {
             fn zip_fn(a: Self, b: Self) -> Self {
                 core::array::from_fn(|c| if c % 2 == 0 { a[c] } else { b[c] })
             }
+            // floats: the native operation, whatever the magnitude (float frames may exceed [-1, 1])
+            fn abs_scale(self, g: $T) -> Self {
+                core::array::from_fn(|c| self[c] * g)
+            }
+            fn abs_offset(self, k: $T) -> Self {
+                core::array::from_fn(|c| self[c] + k)
+            }
+            fn abs_add(self, o: [$T; $N]) -> Self {
+                core::array::from_fn(|c| self[c] + o[c])
+            }
+            fn abs_mul(self, o: [$T; $N]) -> Self {
+                core::array::from_fn(|c| self[c] * o[c])
+            }
         }
     };
 }
 /// wide integer families: values and the clip threshold need more significant bits than the
 /// Float companion's mantissa (24 for i32/f32, 53 for i64/f64)
 macro_rules! fr_wide {
-    ($T:ty, $N:expr, $name:expr, $FT:ty, $scale:expr, $clip:expr) => {
+    ($T:ty, $N:expr, $name:expr, $FT:ty, $scale:expr, $clip:expr, $FMT:expr) => {
         impl Fr for [$T; $N] {
             const NAME: &'static str = $name;
             fn coded(id: usize, n: usize) -> Self {
@@ -308,15 +358,69 @@ macro_rules! fr_wide {
             fn zip_fn(a: Self, b: Self) -> Self {
                 core::array::from_fn(|c| if c % 2 == 0 { a[c] } else { b[c] })
             }
+            fn abs_scale(self, g: $FT) -> Self {
+                let real = self.scale_amp(g);
+                core::array::from_fn(|c| sample_mul($FMT, self[c] as i128, g as f64).map(|x| x as $T).unwrap_or(real[c]))
+            }
+            fn abs_offset(self, k: $T) -> Self {
+                let real = self.offset_amp(k);
+                core::array::from_fn(|c| sample_add($FMT, self[c] as i128, k as i128).map(|x| x as $T).unwrap_or(real[c]))
+            }
+            fn abs_add(self, o: [$T; $N]) -> Self {
+                let real = self.add_amp(o);
+                core::array::from_fn(|c| sample_add($FMT, self[c] as i128, o[c] as i128).map(|x| x as $T).unwrap_or(real[c]))
+            }
+            fn abs_mul(self, o: [$FT; $N]) -> Self {
+                let real = self.mul_amp(o);
+                core::array::from_fn(|c| sample_mul($FMT, self[c] as i128, o[c] as f64).map(|x| x as $T).unwrap_or(real[c]))
+            }
         }
     };
 }
-fr_wide!(i32, 2, "[i32;2]", f32, 12_345_677, 123_456_789);
-fr_wide!(i64, 1, "[i64;1]", f64, 12_345_678_901_234_567, 123_456_789_012_345_678);
+fr_wide!(i32, 2, "[i32;2]", f32, 12_345_677, 123_456_789, Fmt::I32);
+fr_wide!(i64, 1, "[i64;1]", f64, 12_345_678_901_234_567, 123_456_789_012_345_678, Fmt::I64);
 fr_float!(f64, 1, "[f64;1]");
 fr_float!(f32, 2, "[f32;2]");
 fr_float!(f32, 3, "[f32;3]");
 fr_float!(f64, 2, "[f64;2]");
+
+/// a bare wide integer sample used as a mono frame (its own `Frame` impl, not the array one)
+impl Fr for i32 {
+    const NAME: &'static str = "i32";
+    fn coded(id: usize, n: usize) -> i32 {
+        ((((n + 1) * 3 + id * 7) % 41) as i32 - 20) * 12_345_677 + 1
+    }
+    fn offset() -> i32 {
+        3
+    }
+    fn clip_t() -> i32 {
+        123_456_789
+    }
+    fn offset_pc() -> i32 {
+        -1
+    }
+    fn scale_pc() -> f32 {
+        -1.0
+    }
+    fn map_fn(f: i32) -> i32 {
+        f.scale_amp(0.5).offset_amp(1)
+    }
+    fn zip_fn(a: i32, b: i32) -> i32 {
+        a / 2 - b / 4
+    }
+    fn abs_scale(self, g: f32) -> i32 {
+        sample_mul(Fmt::I32, self as i128, g as f64).map(|x| x as i32).unwrap_or_else(|| Frame::scale_amp(self, g))
+    }
+    fn abs_offset(self, k: i32) -> i32 {
+        sample_add(Fmt::I32, self as i128, k as i128).map(|x| x as i32).unwrap_or_else(|| Frame::offset_amp(self, k))
+    }
+    fn abs_add(self, o: i32) -> i32 {
+        sample_add(Fmt::I32, self as i128, o as i128).map(|x| x as i32).unwrap_or_else(|| Frame::add_amp(self, o))
+    }
+    fn abs_mul(self, o: f32) -> i32 {
+        sample_mul(Fmt::I32, self as i128, o as f64).map(|x| x as i32).unwrap_or_else(|| Frame::mul_amp(self, o))
+    }
+}
 
 impl Fr for f32 {
     const NAME: &'static str = "f32";
@@ -340,6 +444,18 @@ impl Fr for f32 {
     }
     fn zip_fn(a: f32, b: f32) -> f32 {
         a - b * 0.5
+    }
+    fn abs_scale(self, g: f32) -> f32 {
+        self * g
+    }
+    fn abs_offset(self, k: f32) -> f32 {
+        self + k
+    }
+    fn abs_add(self, o: f32) -> f32 {
+        self + o
+    }
+    fn abs_mul(self, o: f32) -> f32 {
+        self * o
     }
 }
 
@@ -411,13 +527,14 @@ fn un_model<F: Fr>(u: Un, m: Model<F>, h: usize) -> Model<F> {
     let pt = |f: &dyn Fn(F) -> F| Model { frames: m.frames.iter().map(|x| f(*x)).collect(), t: m.t };
     match u {
         Un::Map => pt(&F::map_fn),
-        Un::ScaleHalf => pt(&|f| f.scale_amp(gain::<F>(0.5))),
-        Un::ScaleNeg => pt(&|f| f.scale_amp(gain::<F>(-1.0))),
-        Un::ScaleZero => pt(&|f| f.scale_amp(gain::<F>(0.0))),
-        Un::ScaleOne => pt(&|f| f.scale_amp(gain::<F>(1.0))),
-        Un::Offset => pt(&|f| f.offset_amp(F::offset())),
-        Un::ScalePC => pt(&|f| f.mul_amp(F::scale_pc())),
-        Un::OffsetPC => pt(&|f| f.add_amp(F::offset_pc())),
+        Un::ScaleHalf => pt(&|f| f.abs_scale(gain::<F>(0.5))),
+        Un::ScaleNeg => pt(&|f| f.abs_scale(gain::<F>(-1.0))),
+        Un::ScaleZero => pt(&|f| f.abs_scale(gain::<F>(0.0))),
+        Un::ScaleOne => pt(&|f| f.abs_scale(gain::<F>(1.0))),
+        Un::ScaleBig => pt(&|f| f.abs_scale(gain::<F>(4.0))),
+        Un::Offset => pt(&|f| f.abs_offset(F::offset())),
+        Un::ScalePC => pt(&|f| f.abs_mul(F::scale_pc())),
+        Un::OffsetPC => pt(&|f| f.abs_add(F::offset_pc())),
         Un::Clip => pt(&clip_ref::<F>),
         Un::Inspect => m,
         Un::Delay(k) => {
@@ -457,11 +574,11 @@ where
             match b {
                 Bin::Add => {
                     let o = model_unary::<F::Signed>(r, h, id);
-                    Model { frames: (0..h).map(|n| a.frames[n].add_amp(o.frames[n])).collect(), t: a.t.min(o.t) }
+                    Model { frames: (0..h).map(|n| a.frames[n].abs_add(o.frames[n])).collect(), t: a.t.min(o.t) }
                 }
                 Bin::Mul => {
                     let o = model_unary::<F::Float>(r, h, id);
-                    Model { frames: (0..h).map(|n| a.frames[n].mul_amp(o.frames[n])).collect(), t: a.t.min(o.t) }
+                    Model { frames: (0..h).map(|n| a.frames[n].abs_mul(o.frames[n])).collect(), t: a.t.min(o.t) }
                 }
                 Bin::Zip => {
                     let o = model_tree::<F>(r, h, id);
@@ -518,6 +635,7 @@ fn un_build<'a, F: Fr>(u: Un, child: Dyn<'a, F>, w: &mut Watch, delay_above: usi
         Un::ScaleNeg => Dyn(Box::new(child.scale_amp(gain::<F>(-1.0)))),
         Un::ScaleZero => Dyn(Box::new(child.scale_amp(gain::<F>(0.0)))),
         Un::ScaleOne => Dyn(Box::new(child.scale_amp(gain::<F>(1.0)))),
+        Un::ScaleBig => Dyn(Box::new(child.scale_amp(gain::<F>(4.0)))),
         Un::Offset => Dyn(Box::new(child.offset_amp(F::offset()))),
         Un::ScalePC => Dyn(Box::new(child.scale_amp_per_channel(F::scale_pc()))),
         Un::OffsetPC => Dyn(Box::new(child.offset_amp_per_channel(F::offset_pc()))),
@@ -872,6 +990,22 @@ pub fn long_programs(ch: usize) -> Vec<Node> {
     let ch = ch as u16;
     let mut v = depth1(&[Leaf::Probe(70), Leaf::Iter(300), Leaf::Inter(64 * ch + ch - 1), Leaf::GenMut]);
     let l = |x: Leaf| Box::new(Node::L(x));
+    // amplitudes beyond full scale (float frames legitimately exceed [-1, 1]): gain 4 below and above
+    // every adaptor and beside every binary one
+    let big = |c: Box<Node>| Node::U(Un::ScaleBig, c);
+    for leaf in [Leaf::Probe(3), Leaf::Iter(2), Leaf::GenMut] {
+        v.push(big(l(leaf)));
+        v.push(big(Box::new(big(l(leaf)))));
+        for u in UNARY {
+            v.push(Node::U(u, Box::new(big(l(leaf)))));
+            v.push(big(Box::new(Node::U(u, l(leaf)))));
+        }
+        for b in BINARY {
+            v.push(Node::B(b, Box::new(big(l(leaf))), l(Leaf::Probe(3))));
+            v.push(Node::B(b, l(Leaf::Probe(3)), Box::new(big(l(leaf)))));
+            v.push(big(Box::new(Node::B(b, l(leaf), l(Leaf::Iter(2))))));
+        }
+    }
     for k in [31u16, 255, 256, 257, 1000] {
         let d = |c: Box<Node>| Node::U(Un::Delay(k), c);
         for leaf in [Leaf::Probe(3), Leaf::Probe(70), Leaf::Iter(2), Leaf::GenMut] {
